@@ -407,11 +407,60 @@ def p_corr_negation(inp):
     return r1[0] == -r0[0] and r2[0] == -r0[0] and r3[0] == r0[0], [r0[0], r1[0], r2[0], r3[0]]
 
 
+def guard_value(kind, xs, ys, names):
+    """The quantity the library's own degeneracy guard compares with TOL, computed here the way the code documents it
+    (sums accumulated in order in binary64; fsum for the plain sums of x and y).  None when there is no such guard
+    (correlation_coeff).  The listed finding 'degenerate data not refused in binary64' is about data for which THIS
+    number is >= TOL although the exact determinant is 0 - an absolute guard cannot see those; a degenerate data set
+    whose guard value is below TOL must be refused, finding or not."""
+    n = len(xs)
+    if kind == 'linear':
+        P_, Q_ = math.fsum(xs), 0.0
+        for x in xs:
+            Q_ += x * x
+        return n * Q_ - P_ * P_
+    if kind == 'quadratic':
+        p, q, r, s_ = math.fsum(xs), 0.0, 0.0, 0.0
+        for x in xs:
+            x2 = x * x
+            q += x2
+            r += x2 * x
+            s_ += x2 * x2
+        q2 = q * q
+        return n * q * s_ + 2.0 * p * q * r - q2 * q - p * p * s_ - n * r * r
+    if kind == 'general':
+        cols = pad(columns(names, xs), n)
+        m = p = q = r = s_ = t = 0
+        for i in range(n):
+            a, b, c = cols[0][i], cols[1][i], cols[2][i]
+            m += a * a
+            p += a * b
+            q += a * c
+            r += b * b
+            s_ += b * c
+            t += c * c
+        if abs(r) < TOL and abs(t) < TOL and abs(m) >= TOL:
+            return None                      # one function: no determinant
+        if abs(t) < TOL and abs(m) >= TOL and abs(r) >= TOL:
+            return m * r - p * p
+        if abs(m * r * t) < TOL:
+            return m * r * t
+        return m * r * t + 2.0 * p * q * s_ - m * s_ * s_ - r * q * q - t * p * p
+    return None
+
+
 def p_degenerate_raises(inp):
     """degenerate data raise ZeroDivisionError instead of returning numbers"""
     kind, xs, ys, names = inp
     out = fit_of(kind, xs, ys, names)
-    return out == 'E:ZeroDivisionError', {'returned': fnums(out) if not out.startswith('E:') else out}
+    det = {'returned': fnums(out) if not out.startswith('E:') else out}
+    try:
+        g = guard_value(kind, xs, ys, names)
+        if g is not None:
+            det['guard_value'] = g
+    except Exception:  # noqa
+        pass
+    return out == 'E:ZeroDivisionError', det
 
 
 EVAL = {f.__name__[2:]: f for f in (p_matches_exact, p_residual_orthogonal, p_unused_coeffs_zero, p_noiseless_recovered,
@@ -451,6 +500,11 @@ def known_match(finding, failure):
             return False
         if inp[0] == 'corr':
             return isinstance(ret, list) or ret == 'E:ValueError'
+        # the finding is about determinants that binary64 rounding lifts to TOL or above; below TOL the library's own
+        # guard sees the degeneracy and must refuse the data
+        g = det.get('guard_value')
+        if isinstance(g, (int, float)) and abs(g) < TOL:
+            return False
         return isinstance(ret, list)
     if finding['predicate'] == 'corr_range':
         return det.get('cond', 0) > finding.get('cond_above', COND_MAX)
